@@ -6,11 +6,13 @@ import lib_C16 as L
 from ufo import err_kind, rat
 
 ID = "C16"
+PROOF_FILES = ["C16", "C16Seq"]
 THEOREM = ("Ufo2ft.C16.deps_rank / C16_total / C16_fuel_irrelevant / C16_explicit_attr / C16_fallback_system / "
            "C16_fallback_unique / C16_rows / C16_explicit / C16_fallback / C16_derived / C16_names / C16_names_compile / "
            "C16_gasp / C16_font / C16_psname / C16_psname_string / C16_psname_ascii / "
            "C16_intListToNum / C16_compiles_partial / C16_compiles_false / C16_infocompiler_total / "
-           "C16_infocompiler_rows / C16_infocompiler_missing_table")
+           "C16_infocompiler_rows / C16_infocompiler_missing_table / C16_infocompiler_seq / C16_infocompiler_seq_source / "
+           "C16_infocompiler_seq_rows / C16_infocompiler_seq_plain / C16_infocompiler_seq_total")
 N = {"quick": 260, "thorough": 6000}
 EXHAUSTIVE = True
 RULE = ("exhaustive: normalizeNameForPostscript on every Unicode scalar value (1 112 064 code points, NFKD of each supplied "
@@ -20,7 +22,13 @@ RULE = ("exhaustive: normalizeNameForPostscript on every Unicode scalar value (1
         "ASCII / Latin-1 / beyond Latin-1 / astral / NFKD-leaky pools, zero values, fractional values where the spec allows "
         "floats, bit lists, zone lists, name and gasp records; each info goes (a) through getAttrWithFallback for every "
         "attribute and (b) through compileTTF or compileOTF with ufoLib2 or defcon, observed in memory and after save+reload; "
-        "plus InfoCompiler overrides on a compiled font, random strings through normalizeStringForPostscript, IEEE "
+        "plus InfoCompiler overrides on a compiled font (an empty override set is not applied, as in PostProcessor); HISTORIES on the "
+        "same source objects: 2-3 fonts post-processed from one source with mostly disjoint override sets, some later ones "
+        "empty - two thirds through compileVariableTTFs/compileVariableCFF2s on a two-master designspace (custom axis) with "
+        "one <variable-font> element per override set (public.fontInfo), one third by compile + InfoCompiler on the same UFO "
+        "object, ufoLib2 (75 %) or defcon - each font checked against (original source info + ITS OWN overrides), then the "
+        "source's info read back (must be unchanged) and the same object compiled once more (must be the compile of the "
+        "original info); random strings through normalizeStringForPostscript, IEEE "
         "double arithmetic samples, and a small malformed stream (odd zone lists, short panose, wrong family class). "
         "non-trivial = at least 5 explicit attributes and at least 5 special fallbacks taken.")
 ASSUMED = [
@@ -29,6 +37,7 @@ ASSUMED = [
     "str.lower()/title() are modelled on ASCII only: no non-ASCII character lowercases to a letter of the four style-map names (checked over all of Unicode by the harness)",
     "fontTools' binary packers accept the generated magnitudes (16-bit fields); CFF PrivateDict defaults are fontTools'",
     "public.openTypePostUnderlinePosition lib key absent",
+    "variable-font histories: what fontTools.varLib does to a merged font is not modelled (fvar/STAT name records are left out of the observation; a custom axis tag is used because varLib.build overwrites usWeightClass / usWidthClass / italicAngle for wght / wdth / slnt); those requests are predicate-only (agree = True)",
 ]
 
 SPECIALS = None
@@ -73,6 +82,11 @@ def gen(rng, n, mode):
         if L.spec_valid(base) or L.spec_valid(over):
             lib = "ufoLib2"      # defcon's info object refuses values its validators reject
         yield {"kind": "infocompiler", "base": base, "over": over, "otf": otf, "lib": lib}
+    # histories: several fonts post-processed from the SAME source objects (several <variable-font> elements of one
+    # designspace, or direct re-use of a UFO), override sets mostly disjoint, some empty; then the source is read back
+    # and compiled once more
+    for i in range(max(10, n // 8)):
+        yield gen_history(rng, mode)
     for i in range(max(6, n // 25)):
         otf = rng.random() < 0.6
         info = L.gen_info(rng, mode, otf, namekind="ascii")
@@ -85,6 +99,34 @@ def gen(rng, n, mode):
         else:
             info["openTypeOS2FamilyClass"] = rng.choice([[1], [1, 2, 3], []])
         yield {"kind": "font", "info": info, "otf": otf, "lib": "ufoLib2", "optimize": False, "malformed": True}
+
+
+def gen_history(rng, mode):
+    via = rng.choice(["direct", "variable", "variable"])
+    otf = rng.random() < 0.4
+    base = L.gen_info(rng, mode, otf, namekind=rng.choice(["ascii", "latin1"]))
+    pool = L.gen_info(rng, mode, False)
+    for _ in range(3):
+        if len(pool) >= 6:
+            break
+        pool.update(L.gen_info(rng, "normal", False))
+    keys = sorted(pool)
+    rng.shuffle(keys)
+    overs = []
+    for j in range(rng.choice([2, 2, 3])):
+        r = rng.random()
+        if r < 0.2 and j > 0:
+            overs.append({})                      # a later font WITHOUT public.fontInfo
+        elif r < 0.85:
+            k = rng.choice([1, 2, 4, 8])          # disjoint from the earlier ones
+            overs.append({a: pool[a] for a in keys[:k]}); keys = keys[k:]
+        else:
+            ks = rng.sample(sorted(pool), min(len(pool), rng.choice([1, 3, 6])))   # may overlap
+            overs.append({a: pool[a] for a in ks})
+    lib = rng.choice(["ufoLib2", "ufoLib2", "ufoLib2", "defcon"])
+    if L.spec_valid(base) or any(L.spec_valid(o) for o in overs):
+        lib = "ufoLib2"
+    return {"kind": "history", "via": via, "base": base, "overs": overs, "otf": otf, "lib": lib}
 
 
 # ------------------------------------------------------------------ running the implementation
@@ -210,12 +252,144 @@ def _run_infocompiler(case):
         tt = _compile(font, otf, False)
         inp["baseVertical"] = "vhea" in tt
         inp["baseGasp"] = "gasp" in tt
-        InfoCompiler(tt, font, dict(over)).compile()
+        if over:      # PostProcessor: `if self.info: self.apply_fontinfo()` — an empty public.fontInfo is not applied
+            InfoCompiler(tt, font, dict(over)).compile()
         obs = L.observe(tt, False)
     except Exception as e:
         inp.setdefault("baseVertical", False); inp.setdefault("baseGasp", False)
         obs = {"err": err_kind(e)}
     return [{"op": "infocompiler", "in": inp, "obs": obs, "tags": tags, "nontrivial": len(over) >= 2}]
+
+
+def _read_info(font):
+    out = {}
+    for a in L.all_attrs() + ["openTypeGaspRangeRecords"]:
+        v = getattr(font.info, a, None)
+        if a == "openTypeGaspRangeRecords" and v is not None:
+            v = [{"rangeMaxPPEM": r["rangeMaxPPEM"], "rangeGaspBehavior": [int(b) for b in r["rangeGaspBehavior"]]} for r in v]
+        if v is not None:
+            out[a] = v
+    return L.enc_info(out)
+
+
+def _designspace(fonts, overs):
+    from fontTools.designspaceLib import (AxisDescriptor, DesignSpaceDocument, RangeAxisSubsetDescriptor, SourceDescriptor,
+                                          VariableFontDescriptor)
+    doc = DesignSpaceDocument()
+    # a custom axis: for the registered tags wght / wdth / slnt fontTools.varLib.build overwrites OS/2.usWeightClass,
+    # usWidthClass and post.italicAngle with the axis default (external behaviour, not ufo2ft's)
+    ax = AxisDescriptor(); ax.name = "Zqaxis"; ax.tag = "TEST"; ax.minimum, ax.default, ax.maximum = 400, 400, 700
+    doc.addAxis(ax)
+    for f, loc in zip(fonts, (400, 700)):
+        s = SourceDescriptor(); s.font = f; s.name = "m%d" % loc; s.location = {"Zqaxis": loc}
+        doc.addSource(s)
+    for k, o in enumerate(overs):
+        vf = VariableFontDescriptor(name="VF%d" % k)
+        vf.axisSubsets = [RangeAxisSubsetDescriptor(name="Zqaxis")]
+        if o:
+            vf.lib["public.fontInfo"] = dict(o)
+        doc.addVariableFont(vf)
+    return doc
+
+
+def _varlib_name_ids(tt):
+    """name IDs (>= 256) that fontTools.varLib allocated for fvar / STAT: not ufo2ft's, not described by the model"""
+    ids = set()
+    if "fvar" in tt:
+        for a in tt["fvar"].axes:
+            ids.add(a.axisNameID)
+        for i in tt["fvar"].instances:
+            ids.update([i.subfamilyNameID, i.postscriptNameID])
+    if "STAT" in tt:
+        st = tt["STAT"].table
+        for a in (st.DesignAxisRecord.Axis if st.DesignAxisRecord else []):
+            ids.add(a.AxisNameID)
+        for v in (st.AxisValueArray.AxisValue if getattr(st, "AxisValueArray", None) else []):
+            ids.add(v.ValueNameID)
+    return {i for i in ids if i >= 256 and i != 0xFFFF}
+
+
+def _run_history(case):
+    """several fonts from the same source objects, then the source read back and compiled again"""
+    from ufo2ft.infoCompiler import InfoCompiler
+    base, overs, otf, lib, via = case["base"], case["overs"], case["otf"], case["lib"], case["via"]
+    tags0 = ["history", "via:" + via, "otf" if otf else "ttf", lib, "fonts:%d" % len(overs)]
+    if any(not o for o in overs[1:]):
+        tags0.append("later-font-without-overrides")
+    seen = set()
+    for o in overs:
+        if seen and not (set(o) >= seen):
+            tags0.append("later-font-lacks-earlier-override"); break
+        seen |= set(o)
+    font = L.build_font(base, lib)
+    before = _read_info(font)
+    envBase = L.make_env(base)
+    reqs, steps = [], []
+
+    def step_req(k, over, tt, err):
+        merged = dict(base); merged.update(over)
+        inp = {"base": L.enc_info(base), "over": L.enc_info(over), "env": L.make_env(merged), "envBase": envBase,
+               "otf": otf, "reloaded": False, "baseVertical": bool(tt is not None and "vhea" in tt),
+               "baseGasp": bool(tt is not None and "gasp" in tt)}
+        tags = tags0 + ["step:%d" % k, "override:%d" % len(over)]
+        if via == "variable":
+            # a variable font has TrueType outlines or a CFF2 table, never the 'CFF ' table the model describes
+            inp["otf"] = False; inp["glyf"] = not otf
+        if err is not None:
+            obs = {"err": err}
+        else:
+            obs = L.observe(tt, False)
+            if via == "variable":
+                # (a public.fontInfo name record may sit on a key varLib allocated for an axis name: InfoCompiler then
+                # replaces that record; such a key is the merged info's and stays in the observation)
+                own = {(r["nameID"], r["platformID"], r["encodingID"], r["languageID"]) for r in merged.get("openTypeNameRecords") or []}
+                vids = _varlib_name_ids(tt)
+                obs["names"] = [n for n in obs["names"] if n[0] not in vids or tuple(n[:4]) in own]
+                tags.append("predicate-only")
+        steps.append({"over": inp["over"], "env": inp["env"], "baseVertical": inp["baseVertical"], "baseGasp": inp["baseGasp"]})
+        reqs.append({"op": "infocompiler", "in": inp, "obs": obs, "tags": tags, "nontrivial": k > 0 and len(overs[0]) >= 1})
+
+    if via == "variable":
+        from ufo2ft import compileVariableCFF2s, compileVariableTTFs
+        second = L.build_font(base, lib)
+        try:
+            doc = _designspace([font, second], overs)
+            vfs = (compileVariableCFF2s if otf else compileVariableTTFs)(doc)
+            for k, over in enumerate(overs):
+                step_req(k, over, vfs["VF%d" % k], None)
+        except Exception as e:
+            step_req(0, overs[0], None, err_kind(e))
+    else:
+        for k, over in enumerate(overs):
+            try:
+                tt = _compile(font, otf, False)        # a fresh compile of the source as it is NOW
+            except Exception as e:
+                step_req(k, over, None, err_kind(e)); break
+            try:
+                if over:                               # PostProcessor: `if self.info: self.apply_fontinfo()`
+                    InfoCompiler(tt, font, dict(over)).compile()
+            except Exception as e:
+                step_req(k, over, tt, err_kind(e)); break
+            step_req(k, over, tt, None)
+    # the caller's source after the whole history
+    after = _read_info(font)
+    # (`before` is the info as read back from the object before the history: for ufoLib2 exactly the info given,
+    # defcon reports [] for some absent lists)
+    reqs.append({"op": "srcinfo", "in": {"base": before, "envBase": envBase, "otf": otf, "reloaded": False, "steps": steps},
+                 "obs": after, "tags": tags0 + ["source-read-back"], "nontrivial": any(overs)})
+    assert before == L.enc_info({k: v for k, v in base.items() if v is not None}) or lib == "defcon", "harness: info not stored as given"
+    # ... and a static compile of the same object afterwards must be the compile of the base info
+    case2 = {"info": base, "otf": otf, "lib": lib, "optimize": False}
+    tags = _font_tags(base, otf, lib) + ["after-history"]
+    inp = {"info": L.enc_info(base), "env": envBase, "otf": otf, "cffWritten": False, "reloaded": False}
+    taken = sum(1 for a in _specials() if base.get(a) is None)
+    nt = len(base) >= 5 and taken >= 5
+    try:
+        obs = L.observe(_compile(font, otf, False), False)
+    except Exception as e:
+        obs = {"err": err_kind(e)}
+    reqs.append({"op": "font", "in": inp, "obs": obs, "tags": tags, "nontrivial": nt})
+    return reqs
 
 
 def _run_chars(case):
@@ -296,7 +470,7 @@ def _run_norm(case):
 
 def run(case):
     k = case["kind"]
-    return {"font": _run_font, "infocompiler": _run_infocompiler, "chars": _run_chars, "graph": _run_graph,
+    return {"font": _run_font, "infocompiler": _run_infocompiler, "history": _run_history, "chars": _run_chars, "graph": _run_graph,
             "bits": _run_bits, "float": _run_float, "norm": _run_norm}[k](case)
 
 
@@ -308,6 +482,11 @@ def _strip(m):
 
 def agree(req, rep):
     m, o, op = rep["model"], req["obs"], req["op"]
+    if op == "srcinfo":
+        return m["info"] == o
+    if op == "infocompiler" and "predicate-only" in req["tags"]:
+        # a font built by varLib: tables the model does not describe (fvar names, CFF2); only the predicate is evaluated
+        return (m.get("err") is not None) == (o.get("err") is not None) if (m.get("err") or o.get("err")) else True
     if op in ("font", "infocompiler"):
         if m.get("err") is not None or o.get("err") is not None:
             return m.get("err") == o.get("err")
@@ -359,6 +538,22 @@ def shrink(case):
             yield dict(case, info={k: v for k, v in info.items() if k not in drop})
         for k in keys:
             yield dict(case, info={a: v for a, v in info.items() if a != k})
+    if case["kind"] == "history":
+        overs = case["overs"]
+        bk = sorted(case["base"])
+        q = max(1, len(bk) // 4)
+        if len(bk) > 4:
+            for i in range(0, len(bk), q):
+                drop = set(bk[i:i + q])
+                yield dict(case, base={a: v for a, v in case["base"].items() if a not in drop})
+        if len(overs) > 2:
+            for j in range(len(overs)):
+                yield dict(case, overs=overs[:j] + overs[j + 1:])
+        for j, o in enumerate(overs):
+            for k in sorted(o):
+                yield dict(case, overs=overs[:j] + [{a: v for a, v in o.items() if a != k}] + overs[j + 1:])
+        for k in sorted(case["base"]):
+            yield dict(case, base={a: v for a, v in case["base"].items() if a != k})
     if case["kind"] == "infocompiler":
         for which in ("over", "base"):
             d = case[which]
@@ -379,9 +574,13 @@ LEVEL_TEXT = ("Proved for all inputs (Lean): the fallback call graph is acyclic 
               "[](){}<>/% (plus the space when allowed) for EVERY string and an arbitrary NFKD function (full strength since the "
               "repair f81aa08), so every generated PostScript name is clean; InfoCompiler never raises for well-formed overrides on a "
               "compiled font, shows the merged info in every row of the tables it handles and leaves a table the temporary "
-              "compile does not build (vhea, gasp) exactly as it was. Tied to the code by exhaustive enumeration of all Unicode scalar "
+              "compile does not build (vhea, gasp) exactly as it was; for ANY sequence of fonts post-processed from the same source "
+              "(several <variable-font> elements, re-use of a UFO) the k-th font is what the original source info and its own "
+              "override set alone give (rows theorem for fonts with overrides, plain compile for fonts without), the sequence never "
+              "raises for well-formed input and leaves the source info as it was. Tied to the code by exhaustive enumeration of all Unicode scalar "
               "values, exhaustive bit lists, the traced call graph, and random attribute subsets through getAttrWithFallback, "
-              "compileTTF/compileOTF (in memory and reloaded) and InfoCompiler.")
+              "compileTTF/compileOTF (in memory and reloaded), InfoCompiler, and histories of variable-font builds / repeated compiles "
+              "on the same source objects with the source read back afterwards.")
 LEVEL_NOTE = ("One statement of the property is false of the code and is proved false of the model on a witness (known finding): "
               "compileOTF+save raises UnicodeEncodeError for CFF-bound names outside Latin-1 (ASCII for the weight name), and a "
               "Latin-1 non-ASCII postscriptFontName cannot be reloaded; the theorem proved instead is C16_compiles_partial with the "
@@ -390,4 +589,9 @@ LEVEL_NOTE = ("One statement of the property is false of the code and is proved 
               "table the temporary compile does not build (old behaviour kept as infoCompileOld with its counterexample); the "
               "exhaustive enumeration must report zero failures and a recurrence of either is a VIOLATION. NFKD, tan and strptime "
               "are inputs; IEEE rounding is modelled and measured on every run, not proved; the name-table merge of InfoCompiler is "
-              "checked by a declarative predicate on observed fonts but has no theorem.")
+              "checked by a declarative predicate on observed fonts but has no theorem. Histories: the model threads the source info "
+              "through the steps (the ufoLib2 branch copies, the defcon branch serialises; `infoCompileStepAliased` shows what "
+              "happens without the copy); on the direct path model and observation are compared in full, on the variable-font "
+              "path (compileVariableTTFs/CFF2s) only the predicates are evaluated on the observed fonts (rows of head/hhea/OS2/post, "
+              "name records other than varLib's, PostScript name; agree = True) because varLib's merge is external; the "
+              "source-unchanged predicate and the recompile of the same object are compared in full on both paths.")
